@@ -151,15 +151,45 @@ def run(rep, tier, parts=("jit", "ctor", "interp", "cranelift")):
                     if n.get("k") == "call" and (callee_path(n) or "").endswith("JitMemory::new"):
                         got = [strip(a).get("v") for a in n["args"] if strip(a).get("k") == "lit" and strip(a).get("lk") == "bool"]
             rep.ob(rw, "%s::jit_compile" % kind, got == want, "%s::jit_compile flags (use_mbuff, update_data_ptr)" % kind, expected=want, found=got)
+        import props.c10 as c10j
         for kind in ("EbpfVmMbuff", "EbpfVmFixedMbuff"):
-            fn = F.fns.get(kind + "::execute_program_jit")
-            ok = False
+            pathj = kind + "::execute_program_jit"
+            fn = F.fns.get(pathj)
+            ok, found = False, "missing"
             if fn:
-                # `match mem.len() { 0 => null_mut(), _ => mem.as_ptr() }` feeds the third argument
-                txt = [n for n in walk(fn["thir"]["body"]) if n.get("k") == "match" and "len" in repr(n["scrut"])[:400]]
-                ok = any(any((callee_path(x) or "").endswith("null_mut") for x in walk(m["arms"][0]["body"])) and m["arms"][0]["pat"].get("v") == 0 for m in txt)
+                # evaluated: every path that invokes the compiled code passes (mbuff ptr, mbuff len, packet ptr - null for
+                # an empty packet -, packet len, the two offsets) - wherever the null test is written
+                evj = symex.Evaluator(F)
+                aj = [evj.sym_for("a%d" % i, q["ty"]) for i, q in enumerate(fn["thir"]["params"][1:])]
+                _k, _sv, outs = c10j.run_method(evj, F, pathj, aj)
+                mem = aj[0]
+                ln = ("call", "len", (mem,), 64)
+                empty = T.cmp("eq", 64, ln, T.K(64, 0))
+                probs, ncalls = [], 0
+                for v, st in outs:
+                    for e in st.effects:
+                        if not (e[0] == "call" and e[1] == "indirect"):
+                            continue
+                        ncalls += 1
+                        args_ = list(e[3])
+                        if len(args_) != 6:
+                            probs.append("%d arguments" % len(args_))
+                            continue
+                        is_null = T.is_k(args_[2]) and args_[2][2] == 0 or (isinstance(args_[2], tuple) and args_[2][0] == "call" and str(args_[2][1]).endswith(("ptr::null_mut", "ptr::null")))
+                        if empty in st.conds:
+                            if not is_null:
+                                probs.append("empty packet: pointer argument is %s" % repr(args_[2])[:60])
+                        elif T.lnot(empty) in st.conds:
+                            if args_[2] != ("call", "as_ptr", (mem,), 64):
+                                probs.append("non-empty packet: pointer argument is %s" % repr(args_[2])[:60])
+                        else:
+                            probs.append("the call does not depend on the packet being empty")
+                        if args_[3] != ln:
+                            probs.append("length argument is not mem.len()")
+                ok = ncalls >= 2 and not probs
+                found = sorted(set(probs)) or "%d invoking paths: null for an empty packet, mem.as_ptr() otherwise" % ncalls
             rep.ob(rw, "%s::execute_program_jit/null" % kind, ok, "%s::execute_program_jit passes a null packet pointer for an empty packet" % kind,
-                   expected="match mem.len() { 0 => null, _ => ptr }", found=ok)
+                   expected="packet pointer = null when mem is empty, mem.as_ptr() otherwise; length = mem.len()", found=found)
         # Raw / NoData delegate with empty metadata buffer / empty packet
         for path, what in (("EbpfVmRaw::execute_program", "&[]"), ("EbpfVmNoData::execute_program", "&mut []")):
             fn = F.fns.get(path)
@@ -169,19 +199,44 @@ def run(rep, tier, parts=("jit", "ctor", "interp", "cranelift")):
     if "ctor" in parts:
         # ---- fixed mbuff: buffer length and pointer stores in the interpreter wrapper
         rc = rep.rule("R09.c", "fixed-mbuff buffer length == max(data_offset, data_end_offset) + 8 in new and set_program", floor=2)
-        ev = symex.Evaluator(F)
-        x, y = T.V("x", 64), T.V("y", 64)
+        import props.c10 as c10_
         for path in ("EbpfVmFixedMbuff::new", "EbpfVmFixedMbuff::set_program"):
-            clos = [p for p in F.fns if p.startswith(path + "::{closure")]
-            good = False
-            found = clos
-            if len(clos) == 1:
-                outs = ev.run_fn(clos[0], [x, y]) or []
-                got = sorted((tuple(T.show(c) for c in s.conds), T.show(v)) for v, s in outs)
-                want = sorted([((T.show(T.cmp("uge", 64, x, y)),), T.show(T.op("add", 64, x, T.K(64, 8)))),
-                               ((T.show(T.cmp("ult", 64, x, y)),), T.show(T.op("add", 64, y, T.K(64, 8))))])
-                good, found = got == want, got
-            rep.ob(rc, path, good, "buffer length closure of %s" % path, expected="x >= y ? x + 8 : y + 8", found=found)
+            fnc = F.fns.get(path)
+            good, found = False, "missing"
+            if fnc:
+                evc = symex.Evaluator(F, opaque_calls=lambda q: q.endswith("EbpfVmMbuff::new") or q.endswith("EbpfVmMbuff::set_program"))
+                if path.endswith("::new"):
+                    ac = [evc.sym_for("a%d" % i, q["ty"]) for i, q in enumerate(fnc["thir"]["params"])]
+                    outs = evc.run_fn(path, ac) or []
+                    x, y = ac[1], ac[2]
+                else:
+                    ac = [evc.sym_for("a%d" % i, q["ty"]) for i, q in enumerate(fnc["thir"]["params"][1:])]
+                    _k, _sv, outs = c10_.run_method(evc, F, path, ac)
+                    x, y = ac[1], ac[2]
+                oks = [(v, st) for v, st in outs if c10_.result_kind(v) in ("Ok", "?")]
+                probs = []
+                ge, lt = T.cmp("uge", 64, x, y), T.cmp("ult", 64, x, y)
+                x8, y8 = T.op("add", 64, x, T.K(64, 8)), T.op("add", 64, y, T.K(64, 8))
+                mx = {T.op("add", 64, T.ite(lt, y, x), T.K(64, 8)), T.op("add", 64, T.ite(ge, x, y), T.K(64, 8))}
+                seen = set()
+                for v, st in oks:
+                    fe = [e for e in st.effects if e[0] == "call" and e[1] == "core::vec::from_elem"]
+                    if len(fe) != 1 or fe[0][2][0] != T.K(8, 0):
+                        probs.append("%d zeroed-vector allocations on an Ok path" % len(fe))
+                        continue
+                    ln = fe[0][2][1]
+                    if ln in mx:
+                        seen |= {"ge", "lt"}
+                    elif ln == x8 and (ge in st.conds or T.lnot(lt) in st.conds):
+                        seen.add("ge")
+                    elif ln == y8 and (lt in st.conds or T.lnot(ge) in st.conds):
+                        seen.add("lt")
+                    else:
+                        probs.append("length %s under %s" % (T.show(ln), [T.show(c) for c in st.conds if c in (ge, lt, T.lnot(ge), T.lnot(lt))]))
+                if seen != {"ge", "lt"}:
+                    probs.append("cases covered: %s" % sorted(seen))
+                good, found = bool(oks) and not probs, sorted(set(probs)) or "x >= y: x + 8; x < y: y + 8"
+            rep.ob(rc, path, good, "length of the zeroed buffer allocated by %s" % path, expected="x >= y ? x + 8 : y + 8", found=found)
 
         # constructor: offsets stored as given, zeroed buffer of the length decided by R09.c, parent built from the program
         rn = rep.rule("R09.n", "EbpfVmFixedMbuff::new stores the two offsets as given and a zeroed buffer of max(offsets)+8 bytes", floor=1)
